@@ -208,10 +208,20 @@ def exact_kind(kind):
     return S.base_kind(kind)["k"] not in ("float", "decimal")
 
 
-def bool_incoherent(kind):
+def bool_incoherent(kind, x=None):
+    """A Boolean whose false text reads back as true; or (for a None input, whose text is '') one
+    for which '' is a synonym of a value whose text is not ''."""
     for k in S.kinds_inside(kind):
-        if k["k"] == "boolean" and (k["false"] == k["true"] or k["false"] in k["tsyn"]):
+        if k["k"] != "boolean":
+            continue
+        if k["false"] == k["true"] or k["false"] in k["tsyn"]:
             return True
+        if x is None:
+            if ("" == k["true"] or "" in k["tsyn"]):
+                if k["true"] != "":
+                    return True
+            elif ("" == k["false"] or "" in k["fsyn"]) and k["false"] != "":
+                return True
     return False
 
 
@@ -566,6 +576,7 @@ class C04(Property):
         "Flatland.C04.Proofs.set_total_text",
         "Flatland.C04.Proofs.C04_total_fails",
         "Flatland.C04.Proofs.reset_text_partial",
+        "Flatland.C04.Proofs.norm_idem",
         "Flatland.C04.Proofs.reset_value_partial",
         "Flatland.C04.Proofs.C04_reset_u_fails",
         "Flatland.C04.Proofs.C04_reset_value_fails",
@@ -609,8 +620,10 @@ class C04(Property):
             # open KF-C04-c: Boolean whose false text is also a true synonym
             scalar_case(BOOL_CUSTOM[3], False),
             scalar_case(BOOL_CUSTOM[5], None),
-            # assorted pinned behaviours
+            # fixed adf6e9c (property C04/C03): Boolean.set(None) keeps the value None
             scalar_case({"k": "boolean_default"}, None),
+            scalar_case(BOOL_CUSTOM[0], None),       # ... and then '' reads back as False/'no' (KF-C04-c class)
+            # assorted pinned behaviours
             scalar_case(K_enum(K_string(True), ["a", "b"]), None),
             scalar_case(K_int(True), "1" * (S.MAXD + 1)),
             scalar_case({"k": "date", "strip": False}, "2020-01-02\n"),
@@ -807,7 +820,7 @@ class C04(Property):
         x = S.nat_to_py(case["x"])
         if clause == "reset-value" and inexact_temporal(kind, x):
             return "KF-C04-b"
-        if clause in ("reset-u", "reset-value") and bool_incoherent(kind):
+        if clause in ("reset-u", "reset-value") and bool_incoherent(kind, x):
             return "KF-C04-c"
         return None
 
